@@ -8,9 +8,11 @@ use std::io::{BufRead, Write};
 
 mod p_config;
 mod sim;
+mod p_store;
 mod p_buflog;
 mod p_repl;
 mod p_leader;
+mod p_merge;
 
 pub fn ints(v: &Value) -> Vec<u64> {
     v.as_array().map(|a| a.iter().map(|x| x.as_u64().unwrap_or(0)).collect()).unwrap_or_default()
@@ -23,6 +25,9 @@ fn dispatch(probe: &str, rt: &tokio::runtime::Runtime, case: Value) -> Value {
         "repl_leader" => p_repl::leader(rt, case),
         "repl_follower" => p_repl::follower(rt, case),
         "leader_commit" => p_leader::commit(rt, case),
+        "merge" => p_merge::run(rt, case),
+        "store_log" => p_store::log(rt, case),
+        "store_meta" => p_store::meta(rt, case),
         "majority" => p_buflog::majority(rt, case),
         _ => Value::String(format!("unknown probe {probe}")),
     }
